@@ -59,6 +59,19 @@ def run(ctx):
     for i in range(300 if th else 60):
         rnd.append(slit_program(rng, rng.choice([1, 2, 3, 4, 5, 8, 16, 40 if th else 12]), rng.choice([1, 5, 30, 200 if th else 60])))
         rnd.append(hmat_program(rng, rng.choice([1, 1, 2, 3, 5, 16]), rng.choice([1, 1, 2, 3, 4, 16]), rng.choice([1, 5, 30, 100])))
+    # large matrices observed once at the end: index arithmetic far from the small shapes (row 255/256, 100 x 100 entries)
+    for n in ((100, 255, 256, 300) if th else (100, 256)):
+        p = slit_program(rng, n, 40)
+        for k, (a, b) in enumerate([(0, 0), (n - 1, n - 1), (0, n - 1), (n - 1, 0), (n // 2, n // 2 + 1), (1, n - 2)]):
+            p["ops"][k]["a"]["a"], p["ops"][k]["a"]["b"] = a, b
+        p["observe_every"] = 1000
+        rnd.append(p)
+    for ni, nt in (((100, 100), (255, 3), (3, 255), (256, 2), (1, 300)) if th else ((100, 100), (256, 2), (3, 255))):
+        p = hmat_program(rng, ni, nt, 60)
+        cs = p["ops"][0]["calls"]
+        for k, (i, j) in enumerate([(0, 0), (ni - 1, nt - 1), (0, nt - 1), (ni - 1, 0)]):
+            cs[k]["a"]["i"], cs[k]["a"]["j"] = i, j
+        rnd.append(p)
     programs = progs + hm + rnd + [p for p in tc.refusal_programs(rng) if p["kind"] in ("SLIT", "HMAT")]
     ctx.samples = tc.sample(progs, 1) + tc.sample(hm, 1) + tc.sample(rnd, 1)
     ctx.distinct = tc.distinct(programs)
